@@ -1130,6 +1130,7 @@ static int32 tls13WriteCertificate(ssl_t *ssl, sslBuf_t *out)
     certList = psDynBufDetachPsSize(&certListBuf, &certListLen);
     if (certList == NULL)
     {
+        psDynBufUninit(&certBuf);
         ssl->err = SSL_ALERT_INTERNAL_ERROR;
         return PS_MEM_FAIL;
     }
